@@ -345,7 +345,7 @@ class BaseTemplate:
 
         filename = str(self.filename)
         if filename and filename != BaseTemplate.filename:
-            digest = os.path.splitext(filename)[0] + '-' + digest
+            digest = filename + '-' + digest
 
         return digest
 
